@@ -221,6 +221,19 @@ let run_line (line : string) =
                         | None -> add "\"unknown\""
                         | Some l -> add "["; sep_iter (fun m -> json_string (implode m)) l; add "]")
           | _ -> add "null")
+     | "H" ->   (* BasicErrorHandler: render an error list *)
+         let facts = parse_facts () in
+         let n = next_int () in
+         let errs = rep n parse_error in
+         let (t, _) = render facts errs in
+         let rec out_rt (t : rtree) =
+           (match t with RT es ->
+              add "["; sep_iter (fun (k, (ms, sub)) ->
+                add "{\"k\":"; out_key k; add ",\"msgs\":[";
+                sep_iter (fun m -> add "["; add (string_of_int (int_of_z m.g_code)); add ",";
+                                   (match m.g_field with None -> add "null" | Some f -> out_key f); add "]") ms;
+                add "],\"sub\":"; out_rt sub; add "}") es; add "]") in
+         out_rt t
      | "T" ->   (* build both trees from an error forest *)
          let n = next_int () in
          let errs = rep n parse_error in
